@@ -153,7 +153,19 @@ fn dictionary_to_dictionary_cast<K: ArrowDictionaryKeyType>(
     let keys_array: ArrayRef = Arc::new(PrimitiveArray::<K>::from(array.keys().to_data()));
     let values_array = array.values();
     let cast_keys = cast_with_options(&keys_array, to_index_type, cast_options)?;
-    let cast_values = cast_with_options(values_array, to_value_type, cast_options)?;
+    let cast_values = match cast_with_options(values_array, to_value_type, cast_options) {
+        Ok(cast_values) => cast_values,
+        // The failing dictionary value may not be referenced by any key: cast the rows instead
+        Err(_) if !cast_options.safe => {
+            let unpacked = take(values_array.as_ref(), array.keys(), None)?;
+            let to_type = Dictionary(
+                Box::new(to_index_type.clone()),
+                Box::new(to_value_type.clone()),
+            );
+            return cast_with_options(unpacked.as_ref(), &to_type, cast_options);
+        }
+        Err(e) => return Err(e),
+    };
 
     // Failure to cast keys (because they don't fit in the
     // target type) results in NULL values;
@@ -216,11 +228,10 @@ fn binary_dict_to_string_view<K: ArrowDictionaryKeyType, O: OffsetSizeTrait>(
             view_from_dict_values::<K, GenericBinaryType<O>, StringViewType>(keys, values)
         }
         Err(e) => {
-            if !cast_options.safe {
-                return Err(e);
-            }
-            // safe=true: validate each dictionary value individually so we can nullify
-            // only the rows whose key points to a null or invalid UTF-8 value.
+            // Validate each dictionary value individually so that only rows whose key points
+            // to invalid UTF-8 are affected: nullified if safe=true, an error otherwise
+            // (a value no key refers to must not fail the cast).
+            let mut error = Some(e);
             let valid: Vec<bool> = (0..values.len())
                 .map(|i| !values.is_null(i) && std::str::from_utf8(values.value(i)).is_ok())
                 .collect();
@@ -254,6 +265,8 @@ fn binary_dict_to_string_view<K: ArrowDictionaryKeyType, O: OffsetSizeTrait>(
                                 let length = end - offset;
                                 builder.append_view_unchecked(0, offset as u32, length as u32);
                             }
+                        } else if !cast_options.safe && !values.is_null(idx) {
+                            return Err(error.take().unwrap());
                         } else {
                             builder.append_null();
                         }
